@@ -21,7 +21,7 @@ EXHAUSTIVE = {"quick": ["integer partitions N=2..12 x 3 element types", "count-v
               "thorough": ["integer partitions N=2..16 x 3 element types", "count-vector pairs K<=3, N1,N2<=5"]}
 REQUIRE = {"pc_one_sample_checked": 100, "pc_two_sample_checked": 100, "pc_table_checked": 30,
            "pc_joint_checked": 30, "pc_n_checked": 100, "tables_with_concat_collision": 3,
-           "tables_with_missing": 3, "legacy_tuple_checked": 3, "relabel_checked": 100}
+           "tables_with_missing": 3, "legacy_tuple_checked": 3, "legacy_tuple_nonlist_containers": 3, "relabel_checked": 100}
 SHARDS = {"quick": 4, "thorough": 16}
 
 
@@ -175,13 +175,18 @@ def k_table(ctx, rows, cols, kinds, rows2=None):
         ctx.count("pc_two_tables_checked")
 
 
-def k_legacy(ctx, alpha, beta, alpha2=None, beta2=None):
+def k_legacy(ctx, alpha, beta, alpha2=None, beta2=None, ca="list", cb="list"):
     import pandas as pd
     import pyrepseq as prs
     keys = list(zip(alpha, beta))
     exp = O.pc_pairs(keys)
-    ctx.sample("legacy_tuple", {"alpha": alpha[:8], "beta": beta[:8], "exact": str(exp)})
+    ctx.sample("legacy_tuple", {"alpha": alpha[:8], "beta": beta[:8], "exact": str(exp), "containers": [ca, cb]})
     _check_value(ctx, ctx.call(prs.pc, (list(alpha), list(beta))), exp, "pc:legacy-tuple", "pc((alpha, beta))", keys)
+    if (ca, cb) != ("list", "list"):
+        # the two chains are paired by position whatever containers (and index labels) carry them
+        ctx.count("legacy_tuple_nonlist_containers")
+        _check_value(ctx, ctx.call(prs.pc, (G.make_container(ca, alpha), G.make_container(cb, beta))), exp,
+                     f"pc:legacy-tuple:containers", f"pc(({ca}, {cb}))", keys)
     df = pd.DataFrame({"CDR3A": alpha, "CDR3B": beta})
     _check_value(ctx, ctx.call(prs.pc, df), exp, "pc:table:complete", "pc(two-column table)", keys)
     if alpha2 is not None:
@@ -286,6 +291,8 @@ def generate(tier, seed):
         alpha = [rng.choice(CELLS_NOEMPTY) for _ in range(n)]
         beta = [rng.choice(CELLS_NOEMPTY) for _ in range(n)]
         p = {"alpha": alpha, "beta": beta}
+        conts = ["list", "ndarray_U", "series_default", "series_shifted", "series_permuted", "series_string"]
+        p["ca"], p["cb"] = conts[i % len(conts)], conts[(i // 2 + 3) % len(conts)]
         if i % 2:
             m = rng.randint(1, 10)
             p["alpha2"] = [rng.choice(CELLS_NOEMPTY) for _ in range(m)]
